@@ -7,7 +7,7 @@ for S in $1; do
   rsync -a --exclude .git --exclude '*.pyc' --exclude __pycache__ /repo/ "$D/"
   (cd "$D" && patch -p1 -s < "$HERE/seeded/$S/patch.diff") || { echo "$S: patch failed"; rm -rf "$D"; continue; }
   for C in $2; do
-    OUT="$(VERIF_REPO="$D" "$HERE/check" "$C" --tier "$TIER" 2>&1 | grep -v '^KNOWN-FINDING' | tail -1)"
+    OUT="$(VERIF_OUT="$D/.verif_out" VERIF_REPO="$D" "$HERE/check" "$C" --tier "$TIER" 2>&1 | grep -v '^KNOWN-FINDING' | tail -1)"
     echo "$S x $C: $OUT"
   done
   rm -rf "$D"
